@@ -57,19 +57,19 @@ func (pm *pinModel) path(v ssa.Value) string {
 		v = resolveCell(v)
 		switch x := v.(type) {
 		case *ssa.Parameter:
-			return "p:" + x.Name()
+			return paramName(x)
 		case *ssa.FreeVar:
 			return "fv:" + x.Name()
 		case *ssa.Global:
 			return "g:" + x.Name()
 		case *ssa.Alloc:
-			return "c:" + x.Name()
+			return valName("c:", x)
 		case *ssa.UnOp:
 			if x.Op == token.MUL {
 				v = x.X
 				continue
 			}
-			return "v:" + x.Name()
+			return valName("v:", x)
 		case *ssa.FieldAddr:
 			st, _ := derefStruct(x.X.Type())
 			f := st.Field(x.Field)
@@ -100,15 +100,69 @@ func (pm *pinModel) path(v ssa.Value) string {
 			if o != nil && pm.getters[o] && len(x.Call.Args) == 1 {
 				return pm.path(x.Call.Args[0]) + "#id"
 			}
-			return "v:" + x.Name()
+			return valName("v:", x)
 		default:
 			if v == nil {
 				return "?"
 			}
-			return "v:" + v.Name()
+			return valName("v:", v)
 		}
 	}
 	return "?"
+}
+
+// noInline: helpers that the pin rules model themselves
+func (pm *pinModel) noInline(f *ssa.Function) bool {
+	k := funcKey(f)
+	if _, ok := pinEscapeAllow[k]; ok {
+		return true
+	}
+	if _, ok := pm.acquire[f]; ok {
+		return true
+	}
+	return pinObjectCtors[k]
+}
+
+// touchesPins: fn (or a private helper it would inline, two levels) calls a pin primitive or an acquire wrapper
+func (pm *pinModel) touchesPins(fn *ssa.Function, depth int) bool {
+	touches := false
+	visit := func(f *ssa.Function) {
+		EachCall(f, func(c ssa.CallInstruction) {
+			o := CalleeObj(c)
+			if o == pm.a.BPMFetch || o == pm.a.BPMNew || o == pm.a.BPMUnpin || o == pm.a.BPMDecPin {
+				touches = true
+			}
+			if g := c.Common().StaticCallee(); g != nil {
+				if _, ok := pm.acquire[g]; ok {
+					touches = true
+				}
+				if depth > 0 && !touches && (&LockWalk{W: pm.w, Fn: fn, NoInline: pm.noInline}).inlinable(g) && pm.touchesPins(g, depth-1) {
+					touches = true
+				}
+			}
+		})
+	}
+	visit(fn)
+	for _, an := range fn.AnonFuncs {
+		visit(an)
+	}
+	return touches
+}
+
+// helperOnly: fn is a private helper that every (non-test) caller inlines: it is judged at its call sites
+func (pm *pinModel) helperOnly(fn *ssa.Function, inScope func(*ssa.Function) bool) bool {
+	n := 0
+	for _, cs := range pm.w.Callers(fn) {
+		top := topFunc(cs.Caller)
+		if pm.w.IsTestFunc(top) || (top.Synthetic != "" && len(pm.w.Callers(top)) == 0) {
+			continue
+		}
+		n++
+		if !inScope(top) || cs.Caller != top || !(&LockWalk{W: pm.w, Fn: top, NoInline: pm.noInline}).inlinable(fn) {
+			return false
+		}
+	}
+	return n > 0 && !pm.w.usedAsValue(fn)
 }
 
 var dbgHook func(in ssa.Instruction, st *LState)
@@ -206,7 +260,11 @@ func (pm *pinModel) analyse(fn *ssa.Function) *pinResult {
 		}
 	}
 	acqSeen := map[ssa.Instruction]bool{}
-	lw := &LockWalk{W: w, Fn: fn, PathFn: pm.path, MaxStates: 1500000}
+	newPageRes := map[string]bool{} // resources obtained from NewPage: the page exists nowhere but in its frame
+	setNextPage := w.MethodObj("storage/access", "TablePage", "SetNextPageID")
+	getNextPage := w.MethodObj("storage/access", "TablePage", "GetNextPageID")
+	isValidID := w.MethodObj("types", "PageID", "IsValid")
+	lw := &LockWalk{W: w, Fn: fn, PathFn: pm.path, MaxStates: 1500000, InlineHelpers: true, NoInline: pm.noInline}
 	lw.Classify = func(c ssa.CallInstruction, st *LState) (lockOp, string) {
 		o := CalleeObj(c)
 		if ok, idExpr := isAcquire(c); ok {
@@ -214,7 +272,10 @@ func (pm *pinModel) analyse(fn *ssa.Function) *pinResult {
 			if !isVal {
 				return opNone, ""
 			}
-			name := "v:" + v.Name()
+			name := valName("v:", v)
+			if o == a.BPMNew {
+				newPageRes[name] = true
+			}
 			if st != nil {
 				if !acqSeen[c] {
 					acqSeen[c] = true
@@ -238,6 +299,11 @@ func (pm *pinModel) analyse(fn *ssa.Function) *pinResult {
 				if strings.HasSuffix(st.held[r], "D") {
 					if cv, isConst := constOf(args[len(args)-1]); isConst && !constant.BoolVal(cv) {
 						addIssue("modified-page-unpinned-clean", c, "page pinned as "+r+" was written under this pin and is unpinned with isDirty=false: the change is lost if the frame is evicted before the page is dirtied again")
+					}
+				}
+				if newPageRes[strings.TrimRight(r, "'")] {
+					if cv, isConst := constOf(args[len(args)-1]); isConst && !constant.BoolVal(cv) {
+						addIssue("modified-page-unpinned-clean", c, "page pinned as "+r+" was created by NewPage in this function (it is not on the data file and NewPage does not mark it dirty) and is unpinned with isDirty=false: when its frame is evicted the page is dropped without ever being written")
 					}
 				}
 				return opUnlock, r
@@ -294,33 +360,24 @@ func (pm *pinModel) analyse(fn *ssa.Function) *pinResult {
 	}
 	// pointer nil-checks: on the edge on which a pinned pointer is nil nothing is pinned
 	lw.OnEdge = func(b *ssa.BasicBlock, succ int, st *LState) bool {
-		// "written under this pin" is tracked only while the page stays in one variable: once the pointer
-		// flows through a phi (next loop iteration, `currentPage = newPage`) the mark is dropped — the paths
-		// that would combine a write of one iteration with a clean unpin of a later one are value-infeasible
-		// here (a freshly initialised page has no next page) and cannot be excluded statically.
-		sb := b.Succs[succ]
-		pi := -1
-		for k, p := range sb.Preds {
-			if p == b {
-				pi = k
-			}
-		}
-		for _, in := range sb.Instrs {
-			phi, ok := in.(*ssa.Phi)
-			if !ok {
-				break
-			}
-			if pi >= 0 && pi < len(phi.Edges) {
-				if r, held := resOf(st, pm.path(phi.Edges[pi])); held && strings.HasSuffix(st.held[r], "D") {
-					st.held[r] = strings.TrimSuffix(st.held[r], "D")
-				}
-			}
-		}
+		// the "written under this pin" mark follows the page through phis (`currentPage = newPage`); the one
+		// value-infeasible combination this used to report — a page formatted in this function that already has a
+		// next page — is pruned below through the "F" flag
 		i := blockIf(b)
 		if i == nil {
 			return true
 		}
 		v, neg := condBase(i.Cond)
+		if vc, isCall := v.(*ssa.Call); isCall && CalleeObj(vc) == isValidID {
+			if g, ok := stripConv(vc.Call.Args[0]).(*ssa.Call); ok && CalleeObj(g) == getNextPage {
+				if r, held := resOf(st, pm.path(g.Call.Args[0])); held && strings.Contains(st.held[r], "F") {
+					validOnEdge := (succ == 0) != neg
+					if validOnEdge {
+						return false // a page formatted in this function has no next page yet
+					}
+				}
+			}
+		}
 		bo, ok := v.(*ssa.BinOp)
 		if !ok || (bo.Op != token.EQL && bo.Op != token.NEQ) {
 			return true
@@ -379,6 +436,17 @@ func (pm *pinModel) analyse(fn *ssa.Function) *pinResult {
 		}
 		if c, ok := in.(*ssa.Call); ok && len(c.Call.Args) > 0 && !c.Call.IsInvoke() {
 			o := CalleeObj(c)
+			// "F": a page created by NewPage in this function and formatted by TablePage.Init has no next page
+			// until SetNextPageID is called on it (prunes the value-infeasible `next page is valid` side below)
+			if o == a.TPInit || o == setNextPage {
+				if r, held := resOf(st, pm.path(c.Call.Args[0])); held && newPageRes[strings.TrimRight(r, "'")] {
+					m := strings.Replace(st.held[r], "F", "", 1)
+					if o == a.TPInit {
+						m = m[:1] + "F" + m[1:]
+					}
+					st.held[r] = m
+				}
+			}
 			if o != nil && o != a.PageSetLSN && (mustWrite.MustSite(in) || pm.overlayMutator(c)) {
 				if r, held := resOf(st, pm.path(c.Call.Args[0])); held && !strings.HasSuffix(st.held[r], "D") {
 					st.held[r] += "D"
@@ -388,7 +456,7 @@ func (pm *pinModel) analyse(fn *ssa.Function) *pinResult {
 			if f := c.Call.StaticCallee(); f != nil {
 				if _, isTransfer := pinEscapeAllow[funcKey(f)]; isTransfer && len(f.Params) > 0 {
 					if r, held := resOf(st, pm.path(c.Call.Args[0])); held && strings.HasSuffix(st.held[r], "D") {
-						recv := "p:" + f.Params[0].Name()
+						recv := paramName(f.Params[0])
 						EachCall(f, func(cc ssa.CallInstruction) {
 							if CalleeObj(cc) != a.BPMUnpin {
 								return
@@ -476,6 +544,12 @@ func init() {
 			return p == libMod+"/storage/access" || p == libMod+"/recovery/log_recovery" || p == libMod+"/catalog" || p == libMod+"/samehada"
 		}, 8, 12, "modified-page-unpinned-clean")
 	})
+	reg("C13-R8/join", "C13-R8 restricted to the join executors and their temporary pages (a build side that does not fit the pool is read back from pages that must have been written)", func(w *World, r *Report) {
+		pinRule(w, r, func(fn *ssa.Function) bool {
+			p := fn.Pkg.Pkg.Path()
+			return p == libMod+"/materialization" || (p == libMod+"/execution/executors" && strings.Contains(funcKey(fn), "Join"))
+		}, 1, 1, "modified-page-unpinned-clean")
+	})
 	reg("C13-R8/index", "C13-R8 restricted to the index containers that keep their pages across a clean restart (container/hash)", func(w *World, r *Report) {
 		pinRule(w, r, func(fn *ssa.Function) bool {
 			p := fn.Pkg.Pkg.Path()
@@ -529,26 +603,11 @@ func pinRule(w *World, r *Report, filter func(fn *ssa.Function) bool, floorFns, 
 		for round := 0; round < 4; round++ {
 			changed := false
 			for _, fn := range fns {
-				// only functions that can touch pins
-				touches := false
-				EachCall(fn, func(c ssa.CallInstruction) {
-					o := CalleeObj(c)
-					if o == pm.a.BPMFetch || o == pm.a.BPMNew || o == pm.a.BPMUnpin || o == pm.a.BPMDecPin {
-						touches = true
-					}
-					if f := c.Common().StaticCallee(); f != nil {
-						if _, ok := pm.acquire[f]; ok {
-							touches = true
-						}
-					}
-				})
-				for _, an := range fn.AnonFuncs {
-					EachCall(an, func(c ssa.CallInstruction) {
-						o := CalleeObj(c)
-						if o == pm.a.BPMFetch || o == pm.a.BPMNew || o == pm.a.BPMUnpin || o == pm.a.BPMDecPin {
-							touches = true
-						}
-					})
+				// only functions that can touch pins (directly or through a private helper they inline);
+				// a private helper that all its callers inline is judged at its call sites
+				touches := pm.touchesPins(fn, 2)
+				if touches && pm.helperOnly(fn, inScope) {
+					continue
 				}
 				if !touches {
 					continue
